@@ -545,7 +545,7 @@ Definition in_domain (c : codec) (v : val) : bool :=
   | CDigestList, VDL (Some l) => forallb dg_wfb l
   | CInfoHash, VStr b | CPeerID, VStr b => id20_wfb b
   | CStatus, VStr b => forallb status_persistent b
-  | CLat, VT z ns => int64b z && (ns <? 1000000000)
+  | CLat, VT z ns => int64b z && (ns =? 0)       (* second granularity *)
   | CPersist, VB _ => true
   | CBits, VBits b => bs_wfb b
   | _, _ => false
